@@ -104,7 +104,9 @@ def run_case(cs):
     world.write_tree(root, tree)
     os.makedirs(root, exist_ok=True)
     allpat = ignoreref.DEFAULTS + pats
-    formats = world.gen_formats(rng)
+    formats = world.gen_formats(rng, repeat=True)
+    if rng.random() < 0.1:
+        formats = formats + [formats[0]]
     # ---------- printed by verify -dh -co on the history-less tree
     f0 = rng.choice(formats)
     want = _expected(tree, allpat, f0)
